@@ -82,6 +82,13 @@ class Register:
             elif alias_from.size is not None and not isinstance(
                 alias_from.size, AnnotatedValue
             ):
+                for bound in (alias_slice.start, alias_slice.stop, alias_slice.step):
+                    if bound is not None and (
+                        isinstance(bound, bool) or not isinstance(bound, int)
+                    ):
+                        raise JaqalError(
+                            f"Slice bounds of {name} must be integers, found {bound}."
+                        )
                 if alias_slice.step == 0:
                     raise JaqalError("Slice step cannot be zero.")
                 if alias_slice.stop > alias_from.size:
